@@ -3,6 +3,7 @@ from typing import Tuple, Dict, Optional, Union
 from autoconf.dictable import from_dict
 from .abstract import AbstractPriorModel
 from autofit.mapper.prior.abstract import Prior
+from autofit.mapper.model import assert_not_frozen
 import numpy as np
 
 from autofit.jax_wrapper import register_pytree_node_class
@@ -90,6 +91,7 @@ class Array(AbstractPriorModel):
             array[index] = value
         return array
 
+    @assert_not_frozen
     def __setitem__(
         self,
         index: Union[int, Tuple[int, ...]],
